@@ -32,6 +32,9 @@ class TypePrinter:
     bound_names: list[str]
     existential_names: dict[UniqueId, str]
 
+    # Already chosen names for bound variables that are printed outside of their binder
+    free_names: dict[int, str]
+
     # Count how often the user has picked the same name to stand for different variables
     counter: dict[str, int]
 
@@ -39,6 +42,7 @@ class TypePrinter:
         self.used = {}
         self.bound_names = []
         self.existential_names = {}
+        self.free_names = {}
         self.counter = {}
 
     def _fresh_name(self, display_name: str) -> str:
@@ -63,7 +67,9 @@ class TypePrinter:
     def _visit_BoundVar(self, var: BoundVar, inside_row: bool) -> str:
         if var.idx < len(self.bound_names):
             return self.bound_names[var.idx]
-        return var.display_name
+        if var.idx not in self.free_names:
+            self.free_names[var.idx] = self._fresh_name(var.display_name)
+        return self.free_names[var.idx]
 
     @_visit.register
     def _visit_ExistentialVar(self, var: ExistentialVar, inside_row: bool) -> str:
